@@ -7,12 +7,122 @@ import time
 import hashlib
 from concurrent.futures import ThreadPoolExecutor
 from .term import *
+from .term import _smt
 
 SOLVERS = {
     'z3new': lambda f, t: ['z3-new', '-T:%d' % t, f],
     'z3': lambda f, t: ['z3', '-T:%d' % t, f],
     'cvc5': lambda f, t: ['cvc5', '--tlimit=%d' % (t * 1000), '--produce-models', f],
 }
+
+
+class SharedPrinter(object):
+    """Prints terms as SMT-LIB with common sub-terms (shared DAG nodes) hoisted into named definitions,
+    so that long store chains and merged values are printed once."""
+
+    def __init__(self, terms):
+        self.count = {}
+        self.names = {}
+        self.defs = []          # (name, sort, text)
+        self.n = 0
+        for t in terms:
+            self._count(t)
+
+    def _count(self, t):
+        stack = [t]
+        cnt = self.count
+        while stack:
+            x = stack.pop()
+            c = cnt.get(x, 0)
+            cnt[x] = c + 1
+            if c:
+                continue
+            if x.op in ('forall', 'exists', 'let'):
+                continue        # bodies mention bound variables: no hoisting inside
+            for a in x.args:
+                if isinstance(a, T):
+                    stack.append(a)
+
+    def text(self, t):
+        out = []
+        self._p(t, out, True)
+        return ''.join(out)
+
+    def _p(self, t, out, top=False):
+        op = t.op
+        if op in ('int', 'bool', 'const') or (op == 'app' and not t.args):
+            _smt(t, out)
+            return
+        if op in ('forall', 'exists', 'let'):
+            _smt(t, out)
+            return
+        nm = self.names.get(t)
+        if nm is not None:
+            out.append(nm)
+            return
+        if self.count.get(t, 0) >= 2 and not top:
+            sub = []
+            self._body(t, sub)
+            self.n += 1
+            nm = 'sh!%d' % self.n
+            self.names[t] = nm
+            self.defs.append((nm, t.sort, ''.join(sub)))
+            out.append(nm)
+            return
+        self._body(t, out)
+
+    def _body(self, t, out):
+        op = t.op
+        if op == 'app':
+            out.append('(' + sym(t.val))
+            for a in t.args:
+                out.append(' ')
+                self._p(a, out)
+            out.append(')')
+        elif op == 'constarr':
+            out.append('((as const %s) ' % t.sort)
+            self._p(t.args[0], out)
+            out.append(')')
+        elif op == '-' and len(t.args) == 1:
+            out.append('(- ')
+            self._p(t.args[0], out)
+            out.append(')')
+        else:
+            out.append('(' + op)
+            for a in t.args:
+                out.append(' ')
+                self._p(a, out)
+            out.append(')')
+
+
+def emit_shared(ctx, keep, goal, model_terms=(), for_cvc5=False):
+    pr = SharedPrinter(list(keep) + [goal])
+    body = [pr.text(a) for a in keep]
+    goal_s = pr.text(goal)
+    used = used_names(list(keep) + [goal] + list(model_terms))
+    out = []
+    if for_cvc5:
+        out.append('(set-option :produce-models true)')
+        out.append('(set-logic ALL)')
+    for name, argsorts, sort in ctx.decls:
+        if name not in used:
+            continue
+        if argsorts is None:
+            out.append('(declare-const %s %s)' % (sym(name), sort))
+        else:
+            out.append('(declare-fun %s (%s) %s)' % (sym(name), ' '.join(argsorts), sort))
+    # definitions may have been created while printing later assertions; they only depend on earlier definitions
+    for nm, sort, txt in pr.defs:
+        out.append('(declare-const %s %s)' % (nm, sort))
+    for nm, sort, txt in pr.defs:
+        out.append('(assert (= %s %s))' % (nm, txt))
+    for b in body:
+        out.append('(assert %s)' % b)
+    out.append('(assert %s)' % goal_s)
+    out.append('(check-sat)')
+    if model_terms:
+        out.append('(get-value (%s))' % ' '.join(smt(t) for t in model_terms))
+    return '\n'.join(out) + '\n'
 
 
 def smt_header(ctx, upto=None):
@@ -39,30 +149,8 @@ def emit(ctx, ob, model_terms=(), for_cvc5=False):
     """SMT-LIB text deciding obligation ob: context assertions made before it, pc, negated condition."""
     asserts = ctx.asserts[:ob.nassert]
     goal = and_(ob.pc, not_(ob.cond))
-    # relevance filter: keep assertions connected (transitively) to the goal through shared symbols
     keep = relevant(asserts, goal)
-    body = [smt(a) for a in keep]
-    used = used_names(keep + [goal] + list(model_terms))
-    out = []
-    if for_cvc5:
-        out.append('(set-option :produce-models true)')
-        out.append('(set-logic ALL)')
-    else:
-        out.append('(set-option :smt.mbqi false)' if False else '')
-    for name, argsorts, sort in ctx.decls:
-        if name not in used:
-            continue
-        if argsorts is None:
-            out.append('(declare-const %s %s)' % (sym(name), sort))
-        else:
-            out.append('(declare-fun %s (%s) %s)' % (sym(name), ' '.join(argsorts), sort))
-    for b in body:
-        out.append('(assert %s)' % b)
-    out.append('(assert %s)' % smt(goal))
-    out.append('(check-sat)')
-    if model_terms:
-        out.append('(get-value (%s))' % ' '.join(smt(t) for t in model_terms))
-    return '\n'.join(x for x in out if x) + '\n'
+    return emit_shared(ctx, keep, goal, model_terms, for_cvc5)
 
 
 def emit_batch(ctx, obs, for_cvc5=False):
@@ -70,23 +158,7 @@ def emit_batch(ctx, obs, for_cvc5=False):
     asserts = [a for i, a in enumerate(ctx.asserts) if i not in ctx.ob_assume_idx]
     goal = or_(*[and_(ob.pc, not_(ob.cond)) for ob in obs])
     keep = relevant(asserts, goal)
-    used = used_names(keep + [goal])
-    out = []
-    if for_cvc5:
-        out.append('(set-option :produce-models true)')
-        out.append('(set-logic ALL)')
-    for name, argsorts, sort in ctx.decls:
-        if name not in used:
-            continue
-        if argsorts is None:
-            out.append('(declare-const %s %s)' % (sym(name), sort))
-        else:
-            out.append('(declare-fun %s (%s) %s)' % (sym(name), ' '.join(argsorts), sort))
-    for a in keep:
-        out.append('(assert %s)' % smt(a))
-    out.append('(assert %s)' % smt(goal))
-    out.append('(check-sat)')
-    return '\n'.join(out) + '\n'
+    return emit_shared(ctx, keep, goal, (), for_cvc5)
 
 
 def check_batch(ctx, obs, timeout, workdir):
